@@ -52,11 +52,14 @@ def warm_op(arms):
     return ["warm_start", feats, 1.0]
 
 
-def enabled_ops(mab, cf, labels, removed, warm=True):
+def enabled_ops(mab, cf, labels, removed, warm=True, query=False):
     arms = list(mab.arms)
     out = train_ops(arms, cf) + arm_ops(arms, labels, removed)
     if warm and len(arms) > 1:
         out.append(warm_op(arms))
+    if query and fitted(mab) and not knn_short(mab):
+        # a prediction made by the bandit itself (not by a copy): whatever it leaves behind stays in the state
+        out.append(["predict", None if cf else [[1, 1], [0, 0]]])
     return out
 
 
@@ -70,7 +73,7 @@ def fitted(mab):
     return bool(mab._is_initial_fit)
 
 
-def explore(cfg, labels, depth, acc, visit, first_ops=None, warm=True, model=None):
+def explore(cfg, labels, depth, acc, visit, first_ops=None, warm=True, model=None, query=False):
     """BFS.  visit(mab, history, removed) is called once per distinct state (including the
     initial one).  first_ops: optional extra operations enabled only in the initial state.
     model: optional context-manager factory (e.g. sched.model) wrapped around every transition."""
@@ -85,7 +88,7 @@ def explore(cfg, labels, depth, acc, visit, first_ops=None, warm=True, model=Non
             visit(mab, hist, removed)
             if d == depth:
                 continue
-            todo = enabled_ops(mab, cf, labels, removed, warm)
+            todo = enabled_ops(mab, cf, labels, removed, warm, query)
             if d == 0 and first_ops:
                 todo = todo + list(first_ops)
             for op in todo:
